@@ -14,8 +14,8 @@ PROP = {'gen': [],
                'loop can observe them and every kernel schedule: an invariant kept by every move and every poll (unanswered wake => byte '
                'in the socket; unanswered SIGWINCH => flag set; input returned ++ queued ++ waiting = arrived), a wake in the pipeline is '
                'returned or stays in the pipeline through every poll, an iteration that passes select with a byte in the socket queues '
-               'Wake, a poll with a wake in the pipeline never sleeps and returns as soon as an event is queued and the tty takes no more '
-               'output, a returning poll returns the oldest event (FIFO), a flagged termination signal makes the iteration return an '
+               'Wake, a poll with a wake in the pipeline never sleeps and, once the Wake is queued, ends within |pending|+1 iterations (at '
+               'once when the tty takes nothing; other events keep the flush-first contract), a returning poll returns the oldest event (FIFO), a flagged termination signal makes the iteration return an '
                'error, every returning path of dispose restores the saved line settings (unless the tty is gone) and has queued the '
                'closing sequence, which is delivered whenever the tty accepts the slice in the first iteration. The model is tied to the code by scripted pty sessions whose poll results, restored '
                'settings and closing sequence it predicts. Real preemption inside system calls, signal latency and wall-clock bounds '
@@ -23,8 +23,8 @@ PROP = {'gen': [],
  'level_note': 'proof of the modelled state machine + scripted correspondence; partial. Trusted: Coq kernel + vm_compute; hand-written '
                'model IO/PollLoop.v; assumption select_level_triggered (select reports exactly the descriptors that are ready when it '
                'is called); signal-hook semantics as read from its source (pipe drained, flags in signal-number order); the decoder is '
-               'abstracted to tokens (C02/C03). Three defects found and fixed (de62e95, 68e120b, 1cf853f); domain assumption: the peer '
-               'eventually reads. No axioms.',
+               'abstracted to tokens (C02/C03). Defects found and fixed: de62e95, 68e120b, 1cf853f+afe2796 (wake only), adc719b, ab83088, 58259f6; domain '
+               'assumption: the peer eventually reads. No axioms.',
  'technique': 'Coq proof (invariants of a transition system under arbitrary schedules) + scripted pty correspondence; partial',
  'design_ref': 'DESIGN.md 6.17',
  'n_quick': 300,
